@@ -15,14 +15,14 @@ SPEC = {
  "C06": ("Chain MaterialiseWF NoWriteThrough", ["derived_denote","chain_correct","indistinguishable_read","materialise_wf","rows_of_denote","assign_leaves_older_arrays_unchanged"]),
  "C07": ("ScanProof AccumProof DiffProof SortProof BucketSort LexSort UniqueProof UniqueLens", ["cumsum_correct","accumulate_correct","diff_correct","sort_buckets","two_pass_rows","index_array_char","sort_correct","unique_correct"]),
  "C08": ("StructProof SubsetProof RSliceProof RSliceInputs NonzeroProof PaddedProof Struct2 Struct2Proof", ["concat0_correct","concat1_correct","like_correct","where_correct","where_scalar_correct","subset_correct","ragged_slice_correct","ragged_slice_1d_correct","ragged_slice_2d_is_ragged","ragged_slice_2d_correct","nonzero_correct","padded_correct"]),
- "C09": ("ColProof ColSum Struct2 Struct2Proof", ["col_counts_correct","colsum_correct","get_column_values_correct"]),
+ "C09": ("ColProof ColSum ColMean RaMean Struct2 Struct2Proof", ["col_counts_correct","colsum_correct","ra_col_mean_correct","get_column_values_correct"]),
  "C10": ("HeapProof HeapRun HeapRunProof", ["run_sim","C10_partial","apply_hsel_natural","safe_runb_iff","C10_partial_concrete","heap_run_is_value_semantics","C10_refuted"]),
  "C11": ("HashInit HashSet HashProof HashEq HashAdd HashItems CounterProof HashRunProof", ["Inv_mk","table_is_dictionary","getv_correct","write_one","setv_correct","tbl_eq_correct","tbl_add_correct","tbl_add_refusal","tbl_add_lookup","tbl_like_correct","items_correct","hash_run_refines","hash_model_refines_spec"]),
  "C12": ("CounterProof FastIndices HashRunProof", ["count_correct","count_history","totals_of_batches","totals_split_and_order_invariant","fast_indices_is_build_indices","fast_indices_correct","hash_run_refines"]),
  "C14": ("RoundTrip RLEProof RLEPer CanonProof ToArray StepProof StartEnd BinaryProof RLConcat", ["to_array_from_array","from_array_canonical","decode_from_array","decode_from_array_R","to_array_correct","join_runs_canonical","start_to_end_shape","step_subset_pos","apply_binary_correct","rl_concat_correct"]),
  "C15": ("RLEIndex RLEIndex2 RLEWindows RLEWindowsVecProof GetSlice StartEnd StepProof StepNeg", ["get_position_correct","get_positions_correct","get_bool_mask_correct","rl_windows_decode","start_to_end_vec_is_rows","start_to_end_vec_decode","rl_getitem_rlmask_correct","get_slice_correct","start_to_end_decode","start_to_end_shape","step_subset_pos","step_subset_neg"]),
  "C16": ("BinaryProof RLEMisc RLConcat RLEReduce", ["apply_binary_correct","rl_map_correct","rl_sum_correct","rl_any_correct","rl_all_correct","rl_max_correct","rl_mean_correct","rl_hist_correct","rl_concat_correct"]),
- "C17": ("RLEMisc BinaryProof RL2Proof RL2Col RL2Ravel RL2Elem RL2Argmax MatrixDecode ColProof RL2ColSum RL2ColCounts RL2Intervals RL2Range RL2RangeStep RL2RangeOpen RL2AnyProof RL2AnyRows", ["from_ragged_decode","from_matrix_decode","rl2_select_correct","rl2_map_correct","rl2_concat_correct","rl2_sum_correct","rl2_max_argmax_correct","rl2_col_correct","rl2_ravel_correct","rl2_elem_correct","rl2_col_sum_correct","rl2_col_sum_matrix_correct","rl2_col_counts_correct","from_intervals_decode","rl2_col_range_pos1_partial","rl2_col_range_pos_partial","rl2_col_range_pos","rl2_col_range_neg_inside","rl2_col_range_neg","col_any_is_sweep","sweep_intervals","col_any_correct","col_any_matrix","col_range_row_is_start_to_end"]),
+ "C17": ("RLEMisc BinaryProof RL2Proof RL2Col RL2Ravel RL2Elem RL2Argmax MatrixDecode ColProof RL2ColSum RL2ColCounts RL2Intervals RL2Range RL2RangeStep RL2RangeOpen RL2AnyProof RL2AnyRows RL2Mean RL2ColMean RL2RowAgg RL2RowAggProof RL2RowAggMatrix", ["from_ragged_decode","from_matrix_decode","rl2_select_correct","rl2_map_correct","rl2_concat_correct","rl2_sum_correct","rl2_max_argmax_correct","rl2_col_correct","rl2_ravel_correct","rl2_elem_correct","rl2_col_sum_correct","rl2_col_sum_matrix_correct","rl2_col_counts_correct","rl2_col_mean_correct","rl2_any_rows_correct","rl2_all_rows_correct","rl2_mean_rows_correct","ragged_row_aggregates","matrix_row_aggregates","from_intervals_decode","rl2_col_range_pos1_partial","rl2_col_range_pos_partial","rl2_col_range_pos","rl2_col_range_neg_inside","rl2_col_range_neg","col_any_is_sweep","sweep_intervals","col_any_correct","col_any_matrix","col_range_row_is_start_to_end"]),
  "C18": ("DataClassProof DataClassAstype DataClassIter", ["obj_iter_entries","obj_iter_length","obj_select_entries","obj_item_entry","obj_concat_entries","obj_eqb_iff","varlen_rows","obj_astype_entries","obj_astype_refused","obj_astype_item"]),
  "C19": ("IdxWidth Shape", ["index_rows_width_independent","excl_prefix_in32","wrap32_id","shape_codes_width_independent","geometry_additions_width_independent"]),
 }
